@@ -41,22 +41,23 @@ Proof. vm_compute. split; reflexivity. Qed.
 
 (* ---- the block executor with cache_directory (Model/CacheExec.v, Proofs/CacheCancel.v): the second
    copy of the cancellation test, in _execute_task_with_cache ---- *)
-From EL Require Model.FileExec Model.CacheExec Proofs.CacheSafe Proofs.CacheCancel Model.StepExec Proofs.FileSafe Proofs.FileRefute.
+From EL Require Import Model.StepExec Model.FileExec Model.FileSpec Model.CacheExec.
+From EL Require Import Proofs.FileSafe Proofs.FileRefute Proofs.CacheSafe Proofs.CacheCancel.
 
 Theorem C06_cached_body_needs_running :
   forall c n prog fs0 s t s' i,
-    wf_prog n prog -> CacheSafe.creach c (CacheExec.cinit n prog fs0) s ->
-    CacheExec.cstep c s t = Some (s', FileExec.FL (LBody i)) -> getf (CacheExec.cb s) i = FRunning.
-Proof. exact CacheCancel.cache_body_needs_running. Qed.
+    wf_prog n prog -> creach c (cinit n prog fs0) s ->
+    cstep c s t = Some (s', FL (LBody i)) -> getf (cb s) i = FRunning.
+Proof. exact cache_body_needs_running. Qed.
 Print Assumptions C06_cached_body_needs_running.
 
 (* once cancelled, never executed: the miss path and the hit path alike *)
 Theorem C06_cached_cancelled_never_executed :
   forall c n prog fs0 s s' t u i,
-    wf_prog n prog -> CacheSafe.creach c (CacheExec.cinit n prog fs0) s ->
-    (getf (CacheExec.cb s) i = FCancelled \/ getf (CacheExec.cb s) i = FCancelledN) ->
-    CacheSafe.creach c s s' -> CacheExec.cstep c s' t = Some (u, FileExec.FL (LBody i)) -> False.
-Proof. exact CacheCancel.cache_cancelled_never_executed. Qed.
+    wf_prog n prog -> creach c (cinit n prog fs0) s ->
+    (getf (cb s) i = FCancelled \/ getf (cb s) i = FCancelledN) ->
+    creach c s s' -> cstep c s' t = Some (u, FL (LBody i)) -> False.
+Proof. exact cache_cancelled_never_executed. Qed.
 Print Assumptions C06_cached_cancelled_never_executed.
 
 (* REFUTED on the cached path (finding D18): "cancelling a call neither delays, fails nor loses any
@@ -65,54 +66,61 @@ Print Assumptions C06_cached_cancelled_never_executed.
    set_result on the cancelled future kills the worker thread (InvalidStateError); its process
    stays alive and nothing but the client can move any more *)
 Theorem C06_refuted_cancelled_hit_kills_worker :
-  CacheSafe.creach CacheCancel.d18_cfg (CacheExec.cinit 2 CacheCancel.d18_prog []) CacheCancel.d18_state /\
-  getf (CacheExec.cb CacheCancel.d18_state) 2 = FCancelled /\
-  outs (CacheExec.cb CacheCancel.d18_state) = [XOk; XRes 1; XOk; XBool true] /\
-  exists s', CacheExec.cstep CacheCancel.d18_cfg CacheCancel.d18_state (TW 1) = Some (s', FileExec.FL (LSetRes 2 1)) /\
-    map wp (ws (CacheExec.cb s')) = [WDead] /\ palive (getp (CacheExec.cb s') 1) = true /\
-    CacheExec.cenabled CacheCancel.d18_cfg s' = [TM].
-Proof.
-  destruct CacheCancel.cancelled_hit_kills_worker as [_ [_ [_ [Hr [_ [Hf [Ho [s' [Hs [_ [Hw [Hp He]]]]]]]]]]]].
-  split; [exact Hr|]. split; [exact Hf|]. split; [exact Ho|]. exists s'. auto.
-Qed.
+  wf_prog 2 d18_prog /\ ccanon d18_cfg 2 = ccanon d18_cfg 1 /\
+  crun d18_cfg d18_sched (cinit 2 d18_prog []) = Some d18_state /\       (* steps only: no kill *)
+  creach d18_cfg (cinit 2 d18_prog []) d18_state /\
+  getov d18_state 0 = CHitSet true 2 /\ getf (cb d18_state) 2 = FCancelled /\
+  outs (cb d18_state) = [XOk; XRes 1; XOk; XBool true] /\                (* cancel() returned True *)
+  exists s', cstep d18_cfg d18_state (TW 1) = Some (s', FL (LSetRes 2 1)) /\
+    getf (cb s') 2 = FCancelled /\                                       (* the future is not changed *)
+    map wp (ws (cb s')) = [WDead] /\                                     (* the thread dies (InvalidStateError) *)
+    palive (getp (cb s') 1) = true /\                                    (* its process is still alive *)
+    cenabled d18_cfg s' = [TM].                                          (* only the client can still move *)
+Proof. exact cancelled_hit_kills_worker. Qed.
 Print Assumptions C06_refuted_cancelled_hit_kills_worker.
 
 (* ---- the file-based executor (Model/FileExec.v): the property quantifies over all executor modes
    and is REFUTED there (findings D22, D26), witnesses by computation in Proofs/FileRefute.v ---- *)
-(* cancel() returns True for a call that is executed all the same *)
+(* cancel() returns True for a call that is executed all the same: some schedule has the step
+   LCancel 1 on a pending future (outcome True) before the step LBody 1 *)
 Theorem C06_refuted_file_mode_cancel_true_yet_executed :
-  exists (sched : list tid) (s : FileExec.fstateX) (tr : list FileExec.flabel) (n1 n2 : nat),
-    FileRefute.ftrace FileRefute.rf_cfg sched FileRefute.ra_init = Some (s, tr) /\
-    FileSafe.freach FileRefute.rf_cfg FileRefute.ra_init s /\
-    n1 < n2 /\
-    nth_error tr n1 = Some (FileExec.FL (LCancel 1)) /\       (* cancel() on a pending future ... *)
-    nth_error tr n2 = Some (FileExec.FL (LBody 1)) /\         (* ... and later the function runs *)
-    outs (FileExec.fbase s) = [XOk; XBool true].              (* cancel() had returned True *)
-Proof. exact FileRefute.file_cancel_true_yet_executed_run. Qed.
+  exists sched s tr n1 n2,
+    ftrace rf_cfg sched ra_init = Some (s, tr) /\ freach rf_cfg ra_init s
+    /\ n1 < n2 /\ nth_error tr n1 = Some (FL (LCancel 1)) /\ nth_error tr n2 = Some (FL (LBody 1))
+    /\ outs (fbase s) = [XOk; XBool true].
+Proof. exact file_cancel_true_yet_executed_run. Qed.
 Print Assumptions C06_refuted_file_mode_cancel_true_yet_executed.
 
 (* a cancel() between the loop's done() test and set_result() kills the loop thread *)
 Theorem C06_refuted_file_mode_cancel_kills_loop :
-  FileExec.fpc FileRefute.rb_s0 = FileExec.GSetRes FileRefute.k1 1 [] [] /\
-  FileExec.fstep FileRefute.rf_cfg FileRefute.rb_s0 TM = Some (FileRefute.rb_s1, FileExec.FL (LCancel 1)) /\
-  outs (FileExec.fbase FileRefute.rb_s1) = [XOk; XBool true] /\
-  FileExec.fstep FileRefute.rf_cfg FileRefute.rb_s1 TD = Some (FileRefute.rb_s2, FileExec.FL (LSetRes 1 1)) /\
-  FileExec.fpc FileRefute.rb_s2 = FileExec.GDead /\
-  FileSafe.freach FileRefute.rf_cfg FileRefute.ra_init FileRefute.rb_s2.
-Proof.
-  pose proof FileRefute.file_cancel_kills_loop as H. decompose [and] H. repeat split; assumption.
-Qed.
+  frun rf_cfg rb_pre ra_init = Some rb_s0
+  /\ fpc rb_s0 = GSetRes k1 1 [] [] /\ fut rb_s0 1 = FPending          (* past the done() test *)
+  /\ fs_get (fsy rb_s0) (k1, EOut) = Some [DFn; DArgs; DKw; DOut]      (* the call has completed *)
+  /\ fstep rf_cfg rb_s0 TM = Some (rb_s1, FL (LCancel 1))
+  /\ fut rb_s1 1 = FCancelled /\ outs (fbase rb_s1) = [XOk; XBool true]
+  /\ fstep rf_cfg rb_s1 TD = Some (rb_s2, FL (LSetRes 1 1))            (* set_result raises *)
+  /\ fpc rb_s2 = GDead /\ disp (fx rb_s2) = DDead /\ loop_alive rb_s2 = false
+  /\ freach rf_cfg ra_init rb_s2.
+Proof. exact file_cancel_kills_loop. Qed.
 Print Assumptions C06_refuted_file_mode_cancel_kills_loop.
 
 (* shutdown(cancel_futures=True) terminates a call that has already started; its future is
    pending in a state in which nothing can move any more *)
 Theorem C06_refuted_file_mode_shutdown_terminates_started_call :
-  nth_error (FileRefute.trace_or FileRefute.rf_cfg FileRefute.rc_pre FileRefute.rc_init) 21 = Some (FileExec.FL (LBody 1)) /\
-  main (FileExec.fbase FileRefute.rc_s4) = MEnd /\
-  getf (FileExec.fbase FileRefute.rc_s4) 1 = FPending /\
-  FileExec.fenabled FileRefute.rf_cfg FileRefute.rc_s4 = [] /\
-  FileSafe.freach FileRefute.rf_cfg FileRefute.rc_init FileRefute.rc_s4.
-Proof.
-  pose proof FileRefute.file_shutdown_terminates_started_call as H. decompose [and] H. repeat split; assumption.
-Qed.
+  ftrace rf_cfg rc_pre rc_init = Some (rc_s0, trace_or rf_cfg rc_pre rc_init)
+  /\ nth_error (trace_or rf_cfg rc_pre rc_init) 21 = Some (FL (LBody 1))      (* the function has run *)
+  /\ map qpc (fps rc_s0) = [QOpenR]
+  /\ frun rf_cfg rc_shut rc_s0 = Some rc_s1
+  /\ fstep rf_cfg rc_s1 TD = Some (rc_s2, FL (LGetNw 0 (Some (Shut true))))   (* F takes the message *)
+  /\ fpc rc_s2 = GTerm [1] /\ map qpc (fps rc_s2) = [QOpenR]                  (* P1 still running *)
+  /\ fstep rf_cfg rc_s2 TD = Some (rc_s3, FL (LPTerm 1))
+  /\ map qpc (fps rc_s3) = [QExit]                                            (* terminated *)
+  /\ frun rf_cfg rc_end rc_s3 = Some rc_s4
+  /\ fpc rc_s4 = GDone /\ main (fbase rc_s4) = MEnd /\ outs (fbase rc_s4) = [XOk; XOk]
+  /\ map qpc (fps rc_s4) = [QExit]
+  /\ fs_has (fsy rc_s4) (k1, EOut) = false
+  /\ fut rc_s4 1 = FPending                                                   (* pending for ever: *)
+  /\ fenabled rf_cfg rc_s4 = []                                               (* nothing can move *)
+  /\ freach rf_cfg rc_init rc_s4.
+Proof. exact file_shutdown_terminates_started_call. Qed.
 Print Assumptions C06_refuted_file_mode_shutdown_terminates_started_call.
